@@ -490,7 +490,7 @@ func runC13(p *core.Program, r *core.Report) {
 	recorderRules(p, r, "", "R13.5")
 	lineBreakRule(p, r)
 	r.Floor("R13.5", 4)
-	r.Floor("R13.7", 19)
+	r.Floor("R13.7", 14) // 19 sites today; merging two rewrite sites lowers the count
 	// R13.8 (= C12 R12.3): every location a token, node or error carries comes from the lexer's
 	// position fields, which must move in lock-step with the byte offset, one rune at a time
 	positionRules(p, r, "R13.8")
